@@ -1427,9 +1427,11 @@ class ServiceClass:
         try:
             for result in handler:
                 # Ensure we are still associated
+                # Only peek at a release request: it must stay queued so the
+                #   association's reactor can answer it with an A-RELEASE response
                 if (
                     self.assoc.acse.is_aborted()
-                    or self.assoc.acse.is_release_requested()
+                    or self.assoc.acse.is_release_requested(consume=False)
                 ):
                     LOGGER.debug(
                         "A-ABORT or A-RELEASE-RQ received during Q/R sub-operations"
